@@ -54,8 +54,10 @@ type c15TypeInfo struct {
 	name   string
 	rt     reflect.Type
 	desc   c15J
-	lambda func(get func() any) *compose.Lambda // string -> T, returning get().(T)
-	run    func(c *c15Case, vals []reflect.Value) *c15Impl
+	lambda func(get func() any) *compose.Lambda // any -> T, returning get().(T)
+	// run[inputTypeName]: the workflow input type is string (a mere trigger), or C15Top /
+	// map[string]any when START itself is one of the mapped predecessors
+	run map[string]func(c *c15Case, vals []reflect.Value) *c15Impl
 }
 
 var (
@@ -70,7 +72,7 @@ func c15Reg[T any](name string) {
 	rt := reflect.TypeOf(z).Elem()
 	ti := &c15TypeInfo{name: name, rt: rt, desc: c15TyDesc(rt)}
 	ti.lambda = func(get func() any) *compose.Lambda {
-		return compose.InvokableLambda(func(ctx context.Context, in string) (T, error) {
+		return compose.InvokableLambda(func(ctx context.Context, in any) (T, error) {
 			v := get()
 			if v == nil {
 				var zero T
@@ -79,7 +81,11 @@ func c15Reg[T any](name string) {
 			return v.(T), nil
 		})
 	}
-	ti.run = func(c *c15Case, vals []reflect.Value) *c15Impl { return c15RunT[T](c, vals) }
+	ti.run = map[string]func(c *c15Case, vals []reflect.Value) *c15Impl{
+		"Str":    func(c *c15Case, vals []reflect.Value) *c15Impl { return c15RunT[string, T](c, vals) },
+		"Top":    func(c *c15Case, vals []reflect.Value) *c15Impl { return c15RunT[C15Top, T](c, vals) },
+		"MapAny": func(c *c15Case, vals []reflect.Value) *c15Impl { return c15RunT[map[string]any, T](c, vals) },
+	}
 	c15Types[name] = ti
 	c15TypeList = append(c15TypeList, name)
 	c15RegDesc(rt)
@@ -105,6 +111,7 @@ func init() {
 	c15Reg[map[string]string]("MapStr")
 	c15Reg[map[string]C15Leaf]("MapLeaf")
 	c15Reg[map[string]*C15Mid]("MapPMid")
+	c15Reg[map[string]C15Mid]("MapMid")
 	c15Reg[any]("Any")
 	c15Reg[string]("Str")
 	c15Reg[int]("Int")
